@@ -321,3 +321,84 @@ func VerifC04Guards() {
 		zz.Assert(res == interface{}(want), "C04.result")
 	}
 }
+
+// c04LoopHead: source of a loop of the given kind running its variable v over 1, 2, 3.
+// kind 0 range, 1 list, 2 map (as [key, value], keys in string order), 3 condition loop.
+func c04LoopHead(kind int, v string) (pre, head string) {
+	switch kind {
+	case 0:
+		return "", "for " + v + " in range(1, 3) {\n"
+	case 1:
+		return "", "for " + v + " in [1, 2, 3] {\n"
+	case 2:
+		return "m" + v + " := {\"c\" : 3, \"a\" : 1, \"b\" : 2}\n", "for [k" + v + ", " + v + "] in m" + v + " {\n"
+	}
+	return v + " := 0\n", "for " + v + " < 3 {\n " + v + " := " + v + " + 1\n"
+}
+
+// VerifC04LoopNest: a loop of any of the four kinds nested in a loop of any of the four kinds (both run 1..3),
+// break and continue at symbolic positions in BOTH loops (optionally the nest sits inside a function and the
+// inner position may return instead): break and continue act on the innermost loop, return leaves the function.
+func VerifC04LoopNest() {
+	erp, vs := c04Setup()
+	ko, ki := zz.Choice("outerKind", 4), zz.Choice("innerKind", 4)
+	if only := zz.Param("OUTER", -1); only >= 0 {
+		zz.Assume(ko == only)
+	}
+	if only := zz.Param("INNER", -1); only >= 0 {
+		zz.Assume(ki == only)
+	}
+	kbi, kci := zz.Choice("innerBreakAt", 4), zz.Choice("innerContinueAt", 4)
+	kbo, kco := zz.Choice("outerBreakAt", 4), zz.Choice("outerContinueAt", 4)
+	inFunc := zz.Bool("inFunction")
+	kri := 0
+	if inFunc {
+		kri = zz.Choice("innerReturnAt", 4)
+	}
+	for n, v := range map[string]int{"kbi": kbi, "kci": kci, "kbo": kbo, "kco": kco, "kri": kri} {
+		vs.SetValue(n, float64(v))
+	}
+	preO, headO := c04LoopHead(ko, "i")
+	preI, headI := c04LoopHead(ki, "j")
+	body := preO + headO + preI + headI +
+		"  if j == kri {\n return 55\n }\n  if j == kbi {\n break\n }\n  if j == kci {\n continue\n }\n  mark(i * 10 + j)\n }\n" +
+		" if i == kbo {\n break\n }\n if i == kco {\n continue\n }\n mark(i)\n}\nmark(100)\n"
+	src := body
+	if inFunc {
+		src = "func f() {\n" + body + "return 77\n}\nr := f()\nmark(r)"
+	}
+	var ref []float64
+	ret := 77.0
+	func() {
+		for i := 1; i <= 3; i++ {
+			for j := 1; j <= 3; j++ {
+				if inFunc && j == kri {
+					ret = 55
+					return
+				}
+				if j == kbi {
+					break
+				}
+				if j == kci {
+					continue
+				}
+				ref = append(ref, float64(i*10+j))
+			}
+			if i == kbo {
+				break
+			}
+			if i == kco {
+				continue
+			}
+			ref = append(ref, float64(i))
+		}
+		ref = append(ref, 100)
+	}()
+	if inFunc {
+		ref = append(ref, ret)
+	}
+	_, err := zzRun(erp, src, vs)
+	zz.Reach("evaluated")
+	zz.Assert(err == nil, "C04.no-error-expected")
+	c04SameTrace(ref)
+}
